@@ -74,6 +74,8 @@ def run(ctx, col, tier):
     _stateless_memo.run_memo(ctx, col)
     from ..rules import smalllints as _small
     _small.run_rounds(ctx, col, ('swcgeom.core.swc_utils.subtree', 'swcgeom.core.swc_utils.base', 'swcgeom.core.tree_utils', 'swcgeom.core.tree_utils_impl'))
+    from ..rules import loopvar as _loopvar
+    _loopvar.run(ctx, col, ('swcgeom.core.tree', 'swcgeom.core.tree_utils', 'swcgeom.core.tree_utils_impl', 'swcgeom.core.swc_utils.base', 'swcgeom.core.swc_utils.subtree', 'swcgeom.core.swc_utils.normalizer', 'swcgeom.core.swc_utils.assembler', 'swcgeom.core.swc_utils.io', 'swcgeom.transforms.tree', 'swcgeom.transforms.branch_tree'))
     from ..rules import rowslice as _rowslice
     _rowslice.run(ctx, col, ('swcgeom.core.tree', 'swcgeom.core.tree_utils', 'swcgeom.core.tree_utils_impl', 'swcgeom.core.swc_utils.base', 'swcgeom.core.swc_utils.subtree', 'swcgeom.core.swc_utils.normalizer', 'swcgeom.transforms.tree'))
     from ..rules import rootpos as _rootpos
